@@ -27,7 +27,7 @@ def hostile_opts(R):
 
 
 def generate(R, tier):
-    n = 20000 if tier == "quick" else 400000
+    n = 20000 if tier == "quick" else 2000000
     for fl in range(512):
         for v in (4, 6):
             yield {"stream": "flags", "syn_mss": 1460, "spec": {"v": v, "flags": fl, "seq": fl % 3, "ack": (fl // 3) % 2 * 77, "urg": (fl // 7) % 2 * 5,
